@@ -597,6 +597,11 @@ def r9_8(ctx, rc):
     by the atomic claim must not leave the directory pinned."""
     from .c14 import r14_1
     r14_1(ctx, rc, only=('_build_file',))
+    # ... and has created nothing before it was rejected: the validity test
+    # precedes the creation of parent directories (order of R10.1) - a
+    # directory made by a rejected duplicate has no owner
+    from .c10 import r10_1
+    r10_1(ctx, rc)
 
 
 def r9_9(ctx, rc):
